@@ -304,6 +304,21 @@ Record dtables := mkTables {
   t_array_namespace : string;
   t_numpy : list (string * np_kind) }.
 
+(* own body of a method that duplicates a ufunc path (COO.isnan next to elemwise(np.isnan, x)) *)
+Inductive dup_body :=
+| DupCtor (cls : string) (kws : list (string * lit))    (* return COO(..., k=v, ...) *)
+| DupDelegate (conv m : string)                          (* return self.tocoo().m().asformat(...) *)
+| DupOther.
+
+(* the constructor call of such a body must ask for pruning: the ufunc path returns a pruned array, so a body that
+   keeps stored values equal to the fill value yields another representation (nnz, coords, density) *)
+Definition dup_body_prunes (b : dup_body) : bool :=
+  match b with
+  | DupCtor _ kws => match assoc "prune" kws with Some (LBool true) => true | _ => false end
+  | DupDelegate _ _ => true          (* inherits the representation of the COO method *)
+  | DupOther => false
+  end.
+
 Inductive side := SideL | SideR.
 
 Inductive spelling :=
@@ -520,14 +535,14 @@ Definition two_algorithm_ops : list (string * string) :=
    /repo by commit ea90286; its clause is gone: a stub reached by any spelling is again a failure of
    spellings_agree_partial.) *)
 
-(* D-C17-c: namespace functions that convert the receiver with asCOO first (format is not preserved) *)
-Definition coercing_ops : list string := ["clip"].
+(* (D-C17-c, "sparse.clip converts its receiver with asCOO first", and the undocumented drop of `out` by the same
+   wrapper were repaired in /repo by 6f38899 and f87860e; the clause is gone: a coercing wrapper is again a failure
+   of wrappers_faithful / spellings_agree_partial.) *)
 
 Definition in_pairs (c o : string) (l : list (string * string)) : bool :=
   existsb (fun t => String.eqb (fst t) c && String.eqb (snd t) o) l.
 
 Definition clause_single_algorithm (cls op : string) : bool := negb (in_pairs cls op two_algorithm_ops).
-Definition clause_not_coerced (cls op : string) : bool := String.eqb cls "COO" || negb (mem op coercing_ops).
 
 (* does a call with npos positional arguments and the given keyword names bind to the signature? *)
 Definition bind_shape (s : list param) (npos : nat) (kws : list string) : bool :=
